@@ -505,6 +505,58 @@ func init() {
 		st.Ghost[hk] = Store(ex.dbHas(st, db), strArg(ex, st, args[1]), TFalse)
 		return ex.freshErr("delete_err", false), true
 	})
+	// Iterators (A3): an iterator of a transaction visits stored entries in an unspecified order; each Item() is an
+	// arbitrary entry that is present in the store (key k with Has[k]); Valid/ValidForPrefix are arbitrary booleans.
+	// Nothing is assumed about completeness of the visit - clauses about "every visited entry" are per step.
+	it := "(*" + badgerPkg + ".Iterator)."
+	ex0iter := map[*Object]*Object{}
+	reg(t+"NewIterator", func(ex *Exec, st *State, fr *Frame, ins ssa.Instruction, args []Value) (Value, bool) {
+		db := ex.txnDB[objOf(args[0])]
+		c, ok := ins.(*ssa.Call)
+		if db == nil || !ok {
+			return nil, false
+		}
+		o := ex.G.NewObject(c.Type().Underlying().(*types.Pointer).Elem(), "iterator")
+		ex0iter[o] = db
+		return &PtrV{Nil: TFalse, Obj: o}, true
+	})
+	for _, n := range []string{"Seek", "Next", "Close", "Rewind"} {
+		reg(it+n, func(ex *Exec, st *State, fr *Frame, ins ssa.Instruction, args []Value) (Value, bool) {
+			if _, ok := ex0iter[objOf(args[0])]; !ok {
+				return nil, false
+			}
+			return &TupleV{}, true
+		})
+	}
+	for _, n := range []string{"Valid", "ValidForPrefix"} {
+		reg(it+n, func(ex *Exec, st *State, fr *Frame, ins ssa.Instruction, args []Value) (Value, bool) {
+			if _, ok := ex0iter[objOf(args[0])]; !ok {
+				return nil, false
+			}
+			return Var(ex.G.name("itervalid"), SBool), true
+		})
+	}
+	reg(it+"Item", func(ex *Exec, st *State, fr *Frame, ins ssa.Instruction, args []Value) (Value, bool) {
+		db, ok := ex0iter[objOf(args[0])]
+		c, ok2 := ins.(*ssa.Call)
+		if !ok || !ok2 {
+			return nil, false
+		}
+		key := ex.G.FreshBytes("iterkey", -1)
+		st.Assume(Select(ex.dbHas(st, db), key))
+		item := ex.G.NewObject(c.Type().Underlying().(*types.Pointer).Elem(), "item")
+		ex.itemOf[item] = itemRef{db: db, key: key}
+		return &PtrV{Nil: TFalse, Obj: item}, true
+	})
+	for _, n := range []string{"Key", "KeyCopy"} {
+		reg("(*"+badgerPkg+".Item)."+n, func(ex *Exec, st *State, fr *Frame, ins ssa.Instruction, args []Value) (Value, bool) {
+			ref, ok := ex.itemOf[objOf(args[0])]
+			if !ok {
+				return nil, false
+			}
+			return ex.newByteSlice(st, ref.key, "itemkey"), true
+		})
+	}
 	reg("(*"+badgerPkg+".Item).Value", func(ex *Exec, st *State, fr *Frame, ins ssa.Instruction, args []Value) (Value, bool) {
 		ref, ok := ex.itemOf[objOf(args[0])]
 		fv, ok2 := args[1].(*FuncV)
